@@ -66,6 +66,13 @@ class Op(NamedTuple):
     g:    0 = no globals (None), 1 = globals {'who': <unique per step>}, 2 = globals {}
     mode: 0 = sync, 1 = async
     via:  0 = namespace passed as keyword argument, 1 = through a render context
+
+    For 'modify' on file-backed sources two of the fields are reused:
+    g   = which mtime the new version gets (MTIME_KINDS): 0 newer than every stamp used
+          so far, 1 older than every stamp used so far, 2 equal to the file's current
+          mtime (content changes, mtime does not), 3 far future, 4 zero, 5 negative;
+    via = 0 rewritten in place, 1 written elsewhere and renamed over it (new inode).
+    Sources without files ignore both.
     """
 
     kind: str
@@ -77,6 +84,9 @@ class Op(NamedTuple):
 
     def j(self) -> list[Any]:
         return [self.kind, self.name, self.ns, self.g, self.mode, self.via]
+
+
+MTIME_KINDS = ("newer", "older", "equal", "future", "zero", "negative")
 
 
 def op_from(j: Any) -> Op:
@@ -92,12 +102,14 @@ def show_op(o: Op) -> str:
         return s
     if o.kind == "fail":
         return "fail-next"
+    if o.kind == "modify" and (o.g or o.via):
+        return f"modify {NAMES[o.name]}[mtime {MTIME_KINDS[o.g]}{', rename' if o.via else ''}]"
     return f"{o.kind} {NAMES[o.name]}"
 
 
 def canonical_histories(
     length: int, *, n_names: int = 3, n_ns: int = 2, per_op_mode: bool = True,
-    uniform_modes: tuple[int, ...] = (0, 1),
+    uniform_modes: tuple[int, ...] = (0, 1), modify_kinds: tuple[int, ...] = (0,),
 ) -> Iterator[tuple[Op, ...]]:
     """Every history of exactly *length* steps that ends in a load, one per class of
     histories equal up to a renaming of template names and of namespaces.
@@ -108,6 +120,7 @@ def canonical_histories(
     consecutive fail-next.  With per_op_mode every load picks sync/async on its own;
     otherwise all loads of a history share one mode out of *uniform_modes*.
     The namespace channel alternates with the step index (even: kwargs, odd: context).
+    Every modify step takes each mtime kind of *modify_kinds* (in-place rewrite).
     """
     modes_outer: tuple[int | None, ...] = (None,) if per_op_mode else uniform_modes
 
@@ -135,7 +148,9 @@ def canonical_histories(
             for n in range(min(used_n + 1, n_names)):
                 if last is not None and last.kind in ("modify", "delete") and last.name == n:
                     continue
-                yield from rec((*prefix, Op(kind, n)), max(used_n, n + 1), used_ns, fixed_mode)
+                for mk in modify_kinds if kind == "modify" else (0,):
+                    yield from rec((*prefix, Op(kind, n, 0, mk)), max(used_n, n + 1), used_ns,
+                                   fixed_mode)
         if not (last is not None and last.kind == "fail"):
             yield from rec((*prefix, Op("fail")), used_n, used_ns, fixed_mode)
 
@@ -149,6 +164,7 @@ def count_canonical(length: int, **kw: Any) -> int:
     n_ns = kw.get("n_ns", 2)
     per_op_mode = kw.get("per_op_mode", True)
     uniform_modes = kw.get("uniform_modes", (0, 1))
+    n_mk = len(kw.get("modify_kinds", (0,)))
     memo: dict[tuple[int, int, int, str, int], int] = {}
 
     def rec(depth: int, used_n: int, used_ns: int, lastk: str, lastn: int) -> int:
@@ -168,7 +184,8 @@ def count_canonical(length: int, **kw: Any) -> int:
                 for n in range(min(used_n + 1, n_names)):
                     if lastk in ("modify", "delete") and lastn == n:
                         continue
-                    total += rec(depth + 1, max(used_n, n + 1), used_ns, kind, n)
+                    total += (n_mk if kind == "modify" else 1) * rec(
+                        depth + 1, max(used_n, n + 1), used_ns, kind, n)
             if lastk != "fail":
                 total += rec(depth + 1, used_n, used_ns, "fail", -1)
         memo[key] = total
@@ -201,6 +218,61 @@ def lru_deep_histories(length: int) -> Iterator[tuple[Op, ...]]:
             yield from rec((*prefix, Op("modify", n)), max(used_n, n + 1))
 
     yield from rec((), 0)
+
+
+# modify variants of the mtime families: (mtime kind, rename?)
+MTIME_VARIANTS = ((0, 0), (1, 0), (2, 0), (3, 0), (4, 0), (5, 0), (0, 1), (1, 1))
+
+
+def mtime_histories(length: int) -> Iterator[tuple[Op, ...]]:
+    """File freshness family: {load sync/async, modify with every MTIME_VARIANT, delete}
+    on <= 2 names (canonical), no namespaces/globals, ending in a load.  A delete directly
+    followed by a modify of the same name IS kept here (create after delete, any mtime)."""
+
+    def rec(prefix: tuple[Op, ...], used_n: int) -> Iterator[tuple[Op, ...]]:
+        depth = len(prefix)
+        final = depth + 1 == length
+        last = prefix[-1] if prefix else None
+        for n in range(min(used_n + 1, 2)):
+            for mode in (0, 1):
+                op = Op("load", n, 0, 0, mode)
+                if final:
+                    yield (*prefix, op)
+                else:
+                    yield from rec((*prefix, op), max(used_n, n + 1))
+        if final:
+            return
+        for n in range(min(used_n + 1, 2)):
+            un = max(used_n, n + 1)
+            if not (last is not None and last.kind == "modify" and last.name == n):
+                for mk, rn in MTIME_VARIANTS:
+                    yield from rec((*prefix, Op("modify", n, 0, mk, 0, rn)), un)
+            if not (last is not None and last.kind in ("modify", "delete") and last.name == n):
+                yield from rec((*prefix, Op("delete", n)), un)
+
+    yield from rec((), 0)
+
+
+def mtime_skeletons() -> Iterator[tuple[Op, ...]]:
+    """load x, CHANGE1 x, [load y], load x, CHANGE2 x, [load y], load x — with CHANGE in
+    every MTIME_VARIANT, or delete followed by create with every mtime kind; the optional
+    load y evicts x at capacity 1; loads all sync, all async, or alternating."""
+    changes: list[tuple[Op, ...]] = [(Op("modify", 0, 0, mk, 0, rn),) for mk, rn in MTIME_VARIANTS]
+    changes += [(Op("delete", 0), Op("modify", 0, 0, mk)) for mk in range(len(MTIME_KINDS))]
+    for modes in ((0, 0, 0, 0, 0), (1, 1, 1, 1, 1), (0, 1, 0, 1, 0), (1, 0, 1, 0, 1)):
+        for c1 in changes:
+            for e1 in (0, 1):
+                for c2 in changes:
+                    for e2 in (0, 1):
+                        h: list[Op] = [Op("load", 0, 0, 0, modes[0]), *c1]
+                        if e1:
+                            h.append(Op("load", 1, 0, 0, modes[1]))
+                        h.append(Op("load", 0, 0, 0, modes[2]))
+                        h.extend(c2)
+                        if e2:
+                            h.append(Op("load", 1, 0, 0, modes[3]))
+                        h.append(Op("load", 0, 0, 0, modes[4]))
+                        yield tuple(h)
 
 
 # ---------------------------------------------------------------------------
@@ -290,9 +362,11 @@ def expect_load(
       * entry resident and (auto_reload off or the source kind has no freshness
         information): the snapshot, no consultation of the source (an armed fault stays
         armed);
-      * entry resident, auto_reload on, freshness information says "unchanged": what the
-        uncached twin returns now (the source need not be consulted, so an armed fault
-        may or may not fire — both accepted);
+      * entry resident, auto_reload on, freshness information says "unchanged" (the mtime
+        of the origin equals the one recorded at load — ANY other mtime, newer or older,
+        is stale): what the uncached twin returns now (the source need not be consulted,
+        so an armed fault may or may not fire — both accepted); if the origin's content
+        changed under an unchanged mtime, snapshot and new content are both accepted;
       * otherwise the source is consulted: the armed fault, or what the twin returns now;
         a success is stored (evicting the least recently used entry when full), a
         failure leaves the entries unchanged (the lookup of a resident key still counts as
@@ -303,6 +377,20 @@ def expect_load(
         if not (auto_reload and has_fresh):
             return [Alt(("ok", e.source), "hit", False, lambda: model.touch(key))]
         if is_fresh(e):
+            if now[0] == "ok" and now[2] == e.origin and now[1] != e.source:
+                # the documented blind spot: the very file the entry came from changed its
+                # content but kept its mtime; freshness information cannot tell, so both
+                # the snapshot and the new content are accepted (counted, don't-care)
+                fresh_ent = Entry(now[1], now[2], now[3], step)
+                alts = [
+                    Alt(("ok", e.source), "hit-equal-mtime", False, lambda: model.touch(key)),
+                    Alt(("ok", now[1]), "reload-equal-mtime", False,
+                        lambda: (model.put(key, fresh_ent), None)[1]),
+                ]
+                if armed:
+                    alts.append(
+                        Alt(("err", armed), "reload-failed", True, lambda: model.touch(key)))
+                return alts
             out = ("ok", now[1]) if now[0] == "ok" else ("err", now[1])
             alts = [Alt(out, "hit-verified", False, lambda: model.touch(key))]
             if armed:
@@ -352,7 +440,12 @@ def pattern(ops: list[Op], category: str) -> str:
             continue
         nm = " " + "xyz"[names.index(o.name)] if multi_n else ""
         if o.kind != "load":
-            parts.append(o.kind + nm)
+            extra = ""
+            if o.kind == "modify" and (o.g or o.via):
+                extra = "[" + "+".join(
+                    ([MTIME_KINDS[o.g] + "-mtime"] if o.g else []) + (["rename"] if o.via else [])
+                ) + "]"
+            parts.append(o.kind + extra + nm)
             continue
         s = ("aload" if o.mode else "load") + nm
         if o.ns:
@@ -375,7 +468,7 @@ def sort_commuting(ops: list[Op]) -> list[Op]:
     def flush() -> None:
         names = [o.name for o in run if o.kind != "fail"]
         if len(names) == len(set(names)):
-            run.sort(key=lambda o: (o.kind, o.name))
+            run.sort(key=lambda o: (o.kind, o.name, o.g, o.via))
         out.extend(run)
         run.clear()
 
@@ -405,6 +498,13 @@ def simplifications(ops: list[Op]) -> Iterator[list[Op]]:
     if any(o.g == 2 for o in loads):
         yield [o._replace(g=0) if (o.kind == "load" and o.g == 2) else o for o in ops]
     for i, o in enumerate(ops):
+        if o.kind == "modify":
+            if o.via:
+                yield [*ops[:i], o._replace(via=0), *ops[i + 1 :]]
+            if o.g:
+                yield [*ops[:i], o._replace(g=0), *ops[i + 1 :]]
+            if o.g > 1:
+                yield [*ops[:i], o._replace(g=1), *ops[i + 1 :]]
         if o.kind != "load":
             continue
         if o.mode:
@@ -443,6 +543,11 @@ def embeddings(pat: list[Op], hist: list[Op], limit: int = 6) -> Iterator[list[i
     def same(p: Op, h: Op) -> bool:
         if p.kind != h.kind:
             return False
+        if p.kind == "modify":
+            # older / zero / negative all put the mtime below the recorded one
+            below = (1, 4, 5)
+            return ((not p.g or p.g == h.g or (p.g in below and h.g in below))
+                    and (not p.via or h.via == 1))
         if p.kind != "load":
             return True
         return ((not p.mode or h.mode == 1) and (not p.ns or h.ns != 0)
